@@ -1,6 +1,7 @@
 package props
 
 import (
+	"unicode/utf8"
 	"fmt"
 	"sort"
 	"strings"
@@ -27,6 +28,12 @@ func drawContainer(rt *rapid.T) lang.Value {
 		return out
 	case 1:
 		rs := rapid.SliceOfN(rapid.SampledFrom([]rune("abcAB 09é狐犬ß😀\n\ufffd\r")), 0, 7).Draw(rt, "runes")
+		if gen.Uniform(rt, "latin1", 6) == 0 {
+			// host text that is not valid UTF-8 (Latin-1, stray bytes): every
+			// invalid byte is one character (it can only come from the host)
+			bs := rapid.SliceOfN(rapid.SampledFrom([]string{"a", "b", "\xe9", "\xff", "\xc3", "é", "狐", "\x80"}), 1, 6).Draw(rt, "bytes")
+			return lang.Str(strings.Join(bs, ""))
+		}
 		return lang.Str(string(rs))
 	case 2:
 		n := rapid.IntRange(0, 5).Draw(rt, "hlen")
@@ -96,7 +103,12 @@ func TestC16(t *testing.T) {
 		}
 		boundary := false
 		var body []lang.Stmt
-		access := rapid.SampledFrom([]string{"index", "index", "index", "badindex", "in", "in", "len", "foreach", "foreach2", "keys", "dot", "string"}).Draw(rt, "access")
+		access := rapid.SampledFrom([]string{"index", "index", "index", "badindex", "in", "in", "len", "foreach", "foreach2", "keys", "dot", "string", "agree"}).Draw(rt, "access")
+		if v.K == lang.KString && !utf8.ValidString(v.S) {
+			// what the characters of such a text are is not laid down; that
+			// indexing, iteration and len speak of the same characters is
+			access = "agree"
+		}
 		switch access {
 		case "index":
 			i := rapid.Int64Range(-3, int64(clen)+3).Draw(rt, "idx")
@@ -141,6 +153,9 @@ func TestC16(t *testing.T) {
 			boundary = true
 		case "string":
 			body = []lang.Stmt{lang.Return{X: lang.Call{Fn: "string", Args: []lang.Expr{ce}}}}
+		case "agree":
+			// indexing, iteration and len agree on what the entries are
+			boundary = true
 		case "foreach":
 			body = []lang.Stmt{lang.Foreach{Var: "v", Iter: ce, Body: []lang.Stmt{lang.ExprStmt{X: lang.Call{Fn: "trace", Args: []lang.Expr{lang.Name{N: "v"}}}}}},
 				lang.Return{X: lang.Lit{V: lang.Str("done")}}}
@@ -158,6 +173,26 @@ func TestC16(t *testing.T) {
 				prelude = "D = " + lang.ExprText(lang.ValueExpr(d)) + ";\n" + prelude
 				col.Class("with-print-alike-decoy")
 			}
+		}
+		if nm, named := ce.(lang.Name); named && gen.Uniform(rt, "used", 3) == 0 {
+			// the container has been used before: handed to built-ins, searched,
+			// walked completely or partly by the script or by the host. None of
+			// that changes it.
+			x := nm.N
+			uses := []string{"u0 = reverse(" + x + ");", "u0 = sort(" + x + ", true);", "u0 = join(" + x + ", \",\");", "u0 = [len(" + x + "), string(" + x + "), keys(" + x + ")];",
+				"u0 = [" + x + "[0], " + x + "[1]];", "foreach uq in " + x + " { u0 = uq; }", "foreach ui, uq in " + x + " { foreach uj, ur in " + x + " { u0 = ur; } }",
+				"function upeek(c) { foreach uq in c { return uq; } return null; }\nu0 = upeek(" + x + ");", "function upeek2(c) { un = 0; foreach ui, uq in c { un = un + 1; if ( un >= 2 ) { return uq; } } return null; }\nu0 = upeek2(" + x + ");",
+				"u0 = walk(" + x + ", -1);", "u0 = walk(" + x + ", 1);", "u0 = walk(" + x + ", 2);", "u0 = [lower(" + x + "), upper(" + x + "), trim(" + x + "), type(" + x + ")];", "u0 = " + x + "; u1 = [u0, u0];"}
+			if v.K == lang.KArray {
+				uses = append(uses, "u0 = [1 in "+x+", \"a\" in "+x+", [] in "+x+"];")
+			}
+			nuse := rapid.IntRange(1, 2).Draw(rt, "nuse")
+			used := ""
+			for i := 0; i < nuse; i++ {
+				used += uses[gen.Uniform(rt, "use", len(uses))] + "\n"
+			}
+			prelude += used
+			col.Class("container-used-before")
 		}
 		c.Script = prelude + lang.ProgramText(prog)
 		// the prelude assignments are part of the script: tell the model
@@ -178,6 +213,22 @@ func TestC16(t *testing.T) {
 		}
 		c.Exp = expectFromModel(m, prog)
 		c.Exp.CheckTrace = true
+		if access == "agree" {
+			x := lang.ExprText(ce)
+			if isRange {
+				x = "(" + x + ")"
+			}
+			switch {
+			case v.K == lang.KHash:
+				c.Script = prelude + "n = 0;\nforeach k, e in " + x + " { if ( string(e) != string(" + x + "[k]) ) { return [\"differs\", k, e, " + x + "[k]]; } n = n + 1; }\nreturn n == len(" + x + ") && n == len(keys(" + x + "));"
+			default:
+				c.Script = prelude + "n = 0;\nforeach i, e in " + x + " { if ( i != n || string(e) != string(" + x + "[i]) || type(e) != type(" + x + "[i]) ) { return [\"differs\", i, e, " + x + "[i]]; } n = n + 1; }\nreturn n == len(" + x + ") && type(" + x + "[n]) == \"null\";"
+			}
+			c.Exp = Expect{Val: lang.Bool(true)}
+			if isRange && clen == 0 {
+				c.Exp = Expect{Err: true, Why: "reversed range"}
+			}
+		}
 		if e := runCase(c); e != nil {
 			violation(rt, "C16", c, "%v", e)
 		}
